@@ -244,7 +244,7 @@ def gen_db(rng, exact_stream=False):
             "id": f"f{i:02d}" if rng.random() < 0.7 else f"x{rng.randint(0, 999):03d}q{i}",
             "inst": inst,
             "name": rng.choice(names + [None]),
-            "unique_tag": rng.choice(tags + [None]),
+            "unique_tag": rng.choice(tags + [None, ""]),
             "path_prefix": rng.choice(["out/a", "out/b", "other", None]),
             "is_complete": rng.choice([True, False, None, True]),
             "is_grid_search": rng.choice([True, False, False, None]),
@@ -334,6 +334,14 @@ def gen_leaf(rng, dbd, seen, pool, exact_stream, like_stream):
         v = f[a] if rng.random() < 0.8 else rng.choice([None, "zz", "a"])
         return {"k": "attr_eq", "attr": a, "v": v}
     if r < 0.33:
+        q = rng.random()
+        if q < 0.3:
+            # equality with a falsy right-hand side is an ordinary comparison, not a test for NULL
+            return {"k": "attr_eq", "attr": rng.choice(["is_complete", "is_grid_search"]), "v": rng.choice([False, False, True])}
+        if q < 0.4:
+            return {"k": "attr_eq", "attr": "max_log_likelihood", "v": 0.0}
+        if q < 0.5:
+            return {"k": "attr_eq", "attr": rng.choice(["unique_tag", "name"]), "v": ""}
         v = f["max_log_likelihood"] if rng.random() < 0.8 else None
         return {"k": "attr_eq", "attr": "max_log_likelihood", "v": v}
     if r < 0.55:
